@@ -481,3 +481,79 @@ func readAll(r io.Reader) string { b, _ := io.ReadAll(r); return string(b) }
 func (c *Ctx) pickDur(qMin, tMin int) time.Duration {
 	return time.Duration(c.pick(qMin, tMin)) * time.Minute
 }
+
+func jsonMarshal(v any) ([]byte, error) { return json.Marshal(v) }
+
+// validateFlatTrace validates a flat list of trace lines (one spec step per line, no reset lines)
+// and returns the indices of lines that TLC could not explain. Acceptance is by the diameter
+// postcondition; after a rejection the offending line is removed and validation continues.
+func validateFlatTrace(c *Ctx, module, cfg string, lines []map[string]any) []int {
+	dir := c.specWorkDir("flat-" + module)
+	idx := make([]int, len(lines))
+	for i := range idx {
+		idx[i] = i
+	}
+	var rejected []int
+	cur := lines
+	for round := 0; round < 200; round++ {
+		if len(cur) == 0 {
+			return rejected
+		}
+		items := make([]any, len(cur))
+		for i, l := range cur {
+			items[i] = l
+		}
+		writeNDJSON(filepath.Join(dir, "trace.ndjson"), items)
+		res := c.runTLC(dir, TLCOpts{Module: module, Cfg: cfg, Workers: 1, AllowError: true})
+		diam := -1
+		if d := res.Records["DIAM"]; len(d) > 0 {
+			diam, _ = strconv.Atoi(d[len(d)-1])
+		}
+		if res.ExitCode == 0 {
+			if diam-1 != len(cur) {
+				fatalf("flat trace validation inconsistent: exit 0, diameter %d, %d lines", diam, len(cur))
+			}
+			return rejected
+		}
+		if diam < 1 || diam > len(cur) {
+			fatalf("flat trace validation failed without usable diameter (exit %d):\n%s", res.ExitCode, res.ErrorText)
+		}
+		rejected = append(rejected, idx[diam-1])
+		cur = cur[diam:]
+		idx = idx[diam:]
+	}
+	fatalf("more than 200 rejected trace lines")
+	return nil
+}
+
+// classifyFlatTrace runs a trace specification that has an explicit "bad observation" action
+// (printing <<"BAD", line>>) over all lines in ONE TLC run; every line must be consumed.
+func classifyFlatTrace(c *Ctx, module, cfg string, lines []map[string]any) []int {
+	if len(lines) == 0 {
+		return nil
+	}
+	dir := c.specWorkDir("cls-" + module)
+	items := make([]any, len(lines))
+	for i, l := range lines {
+		items[i] = l
+	}
+	writeNDJSON(filepath.Join(dir, "trace.ndjson"), items)
+	res := c.runTLC(dir, TLCOpts{Module: module, Cfg: cfg, Workers: 1, AllowError: true})
+	diam := -1
+	if d := res.Records["DIAM"]; len(d) > 0 {
+		diam, _ = strconv.Atoi(d[len(d)-1])
+	}
+	if res.ExitCode != 0 || diam-1 != len(lines) {
+		fatalf("trace classification did not consume all %d lines (exit %d, diameter %d):\n%s", len(lines), res.ExitCode, diam, res.ErrorText)
+	}
+	var bad []int
+	for _, b := range res.Records["BAD"] {
+		n, err := strconv.Atoi(b)
+		if err != nil || n < 1 || n > len(lines) {
+			fatalf("bad BAD record %q", b)
+		}
+		bad = append(bad, n-1)
+	}
+	sort.Ints(bad)
+	return bad
+}
